@@ -136,7 +136,7 @@ GEN = {
                 distinct=lambda r: len([k for k in r.cover if k.startswith("cell:")]), evaluations=lambda r: r.stats.get("clouds", 0),
                 assumptions=["expected value = clamp((v-min)/(max-min)) in f64 with halved operands, tolerance 2 ulp(f32) + 2e-7", "when limits are complete but of mixed/other type either candidate range is accepted; the invariants ([0,1], no NaN, monotone) are always required", "a reader that refuses unusable limits (reversed, non-finite) when the iterator is created is not a C13 matter"]),
     "C08": dict(workload="fuzz", extra=[], quick=(400000, 60), thorough=(12000000, 1200), both=True, abort_prop="C08", libfuzzer=600,
-                rule="structure-aware mutants (37 operators: XML numbers/attributes/types/structure incl. NaN, inf, extreme integers, huge and empty prototypes, entity expansion, deep nesting, bad UTF-8; file-header, section-header, packet-header, stream-length and blob-header fields set to hostile values; payload bit flips; splices; ignored-packet chains; all pages re-sealed with the harness CRC; plus unsealed flips, truncations, extensions, tiny inputs; 25% stacked twice) of 14 bundled test files and 12 generated files, each fed to validate_crc, raw_xml, E57Reader::new, all getters, raw iterator, simple iterator (all 64 option vectors for the first two seeds, 4 otherwise), descriptor and hostile blobs; every call under catch_unwind + panic hook in a checked-arithmetic build; shard aborts are attributed to the journaled case; thorough additionally drives a coverage-guided libFuzzer target (fuzz/: input = logical stream, re-paged and sealed) for 10 minutes on 16 forks as a further workload source; non-trivial = mutated input executed; distinct = distinct input byte strings (FNV-64)",
+                rule="structure-aware mutants (38 operators: XML numbers/attributes/types/structure (incl. removal of whole elements) incl. NaN, inf, extreme integers, huge and empty prototypes, entity expansion, deep nesting, bad UTF-8; file-header, section-header, packet-header, stream-length and blob-header fields set to hostile values; payload bit flips; splices; ignored-packet chains; all pages re-sealed with the harness CRC; plus unsealed flips, truncations, extensions, tiny inputs; 25% stacked twice) of 14 bundled test files and 12 generated files, each fed to validate_crc, raw_xml, E57Reader::new, all getters, raw iterator, simple iterator (all 64 option vectors for the first two seeds, 4 otherwise), descriptor and hostile blobs, size_hint before every step and the public value conversion helpers on the first yielded points; every call under catch_unwind + panic hook in a checked-arithmetic build; shard aborts are attributed to the journaled case; thorough additionally drives a coverage-guided libFuzzer target (fuzz/: input = logical stream, re-paged and sealed) for 10 minutes on 16 forks as a further workload source; non-trivial = mutated input executed; distinct = distinct input byte strings (FNV-64)",
                 distinct=lambda r: len(r.nums.get("input_identity", ())), evaluations=lambda r: r.stats.get("inputs", 0),
                 extra_cov=lambda r: {"inputs_opened": r.stats.get("inputs_opened", 0), "inputs_reached_packet_decoding": r.stats.get("inputs_reached_packet_decoding", 0), "simple_iterations_with_points": r.stats.get("inputs_reached_simple_points", 0),
                                      "calls_monitored": r.stats.get("calls_monitored", 0) + r.stats.get("iterator_steps_monitored", 0), "distinct_error_classes_seen": len(r.nums.get("error_class", ())), "panics": sum(v for k, v in r.sigcounts.items() if k.startswith("C08/panic")),
